@@ -29,11 +29,29 @@ targ1 = z3.Function("targ1", Val, Val)
 def named(st, t, prefix):
     """give a compound array term a name (definitional extension) so it can be used in patterns"""
     t = z3.simplify(t)
-    if z3.is_const(t) and t.decl().kind() == z3.Z3_OP_UNINTERPRETED:
+    if pattern_ok(t):
         return t
-    c = fresh(prefix, t.sort())
-    st.assume(c == t)
-    return c
+    from pyvc.contracts import define
+    return define(prefix, t)
+
+
+def pattern_ok(t):
+    """may the term be used inside a quantifier pattern (no ite / lambda / store)"""
+    todo = [t]
+    seen = set()
+    while todo:
+        x = todo.pop()
+        if x.get_id() in seen:
+            continue
+        seen.add(x.get_id())
+        if z3.is_quantifier(x):
+            return False
+        if z3.is_app(x):
+            k = x.decl().kind()
+            if k in (z3.Z3_OP_ITE, z3.Z3_OP_STORE, z3.Z3_OP_CONST_ARRAY):
+                return False
+            todo.extend(x.children())
+    return True
 
 
 def fld(st, obj, name):
@@ -77,7 +95,7 @@ def dct(st, self):
 def view(st, self):
     """abstract list of a KeyedList: (length, elements)"""
     L = lst(st, self)
-    return st.get("llen", L), st.get("lelem", L)
+    return st.get("llen", L), named(st, st.get("lelem", L), "view")
 
 
 def idx_int(v):
@@ -96,10 +114,20 @@ def clip_insert(i, n):
     return z3.If(i < 0, z3.If(i + n < 0, 0, i + n), z3.If(i > n, n, i))
 
 
+MODE = ["assume"]      # set by the engine: are the clauses being assumed or proved?
+
+
 def seq_eq(n1, e1, n2, f2):
-    """(n1, e1) equals the sequence of length n2 whose j-th element is f2(j)"""
+    """(n1, e1) is the sequence of length n2 whose j-th element is f2(j).  List arrays are normalised
+    (the 'no value' marker outside [0, len)), so this is the array equality
+        e1 == (lambda j. j in [0, n2) ? f2(j) : absent).
+    As a hypothesis it is stated as that equality (rewrites directly); as a goal it is stated
+    pointwise (the extensionality instance the solver would need anyway)."""
     j = z3.Int("j!seq")
-    return z3.And(n1 == n2, z3.ForAll([j], z3.Implies(z3.And(j >= 0, j < n2), z3.Select(e1, j) == f2(j))))
+    rhs = z3.If(z3.And(j >= 0, j < n2), f2(j), ABSENT)
+    if MODE[0] == "assume":
+        return z3.And(n1 == n2, e1 == z3.Lambda([j], rhs))
+    return z3.And(n1 == n2, z3.ForAll([j], z3.Select(e1, j) == rhs))
 
 
 def shape(st, self, clsname):
@@ -171,3 +199,15 @@ def same_config(pre, post, self):
 
 def has_key(st, self, key):
     return z3.Select(st.get("dhas", dct(st, self)), kn(key))
+
+
+def seqof(st, v):
+    """the finite sequence obtained by iterating v in state st: the heap contents for built-in
+    lists/tuples, the view for a KeyedList, and (A-ITER) a function of the object otherwise."""
+    from pyvc.models import IT_N, IT_ARR
+    a = a_of(v)
+    cl = st.get("cls_of", a)
+    isl = z3.And(is_ref(v), z3.Or(cl == CLS.cid("list"), cl == CLS.cid("tuple")))
+    n = z3.If(isl, st.get("llen", a), IT_N(v))
+    arr = z3.If(isl, st.get("lelem", a), IT_ARR(v))
+    return n, arr
